@@ -2,7 +2,7 @@
     fill_forward_gaps and backfill (observed cells kept, shape of the added cells). *)
 From Coq Require Import ZArith List Bool Lia Sorted.
 From Bermuda Require Import Lib.Calendar Model.Base Model.Accessors Model.Extend
-  Proofs.Accessors Proofs.AccessorsTax Proofs.AccessorsCal.
+  Proofs.Accessors Proofs.AccessorsTax Proofs.CalendarP Proofs.AccessorsCal.
 Import ListNotations.
 Local Open Scope Z_scope.
 
@@ -116,10 +116,10 @@ Proof.
 Qed.
 
 (* ================================================================== placement *)
-(* a cell is month-aligned within the proved calendar range *)
+(* a cell is month-aligned (period end and evaluation date are month ends of year >= 1) *)
 Definition aligned (c : cell) : Prop :=
-  exists a b, 0 <= a <= MAXID /\ 0 <= b <= MAXID /\ pe c = month_end a /\ ev c = month_end b.
-Definition lag_in_range (c : cell) (l : Z) : Prop := 0 <= month_id (pe c) + l <= MAXID.
+  exists a b, MINID <= a /\ MINID <= b /\ pe c = month_end a /\ ev c = month_end b.
+Definition lag_in_range (c : cell) (l : Z) : Prop := MINID <= month_id (pe c) + l.
 
 Lemma month_lag_after e l :
   aligned e -> lag_in_range e l -> cell_lag UMonth e < l ->
@@ -128,7 +128,7 @@ Proof.
   intros [a [b [Ha [Hb [Hpe Hev]]]]] Hr Hlt. unfold lag_in_range in Hr. simpl in *. rewrite Hpe, Hev in *.
   rewrite month_id_end in Hr by assumption. rewrite lag_months_ends in Hlt by assumption.
   rewrite addm_end by assumption. split.
-  - apply month_end_mono; unfold MAXID in *; lia.
+  - apply month_end_mono; lia.
   - rewrite lag_months_ends by assumption. lia.
 Qed.
 
@@ -408,9 +408,9 @@ Proof.
   intros Hr. unfold required_lags. destruct (last <? first) eqn:E; [intros []|].
   rewrite in_map_iff. intros [k [<- Hk]]. apply in_seq in Hk. exists (Z.of_nat k). repeat split; [lia|].
   apply Z.ltb_ge in E.
-  assert (0 <= (last - first) / res) by (apply Z.div_pos; lia).
-  assert (Z.of_nat k <= (last - first) / res) by (destruct Hk as [_ Hk]; simpl in Hk; lia).
-  assert (res * ((last - first) / res) <= last - first) by (apply Z.mul_div_le; lia). nia.
+  assert (0 <= (last - first + res - 1) / res) by (apply Z.div_pos; lia).
+  assert (Z.of_nat k <= (last - first + res - 1) / res) by (destruct Hk as [_ Hk]; simpl in Hk; lia).
+  assert (res * ((last - first + res - 1) / res) <= last - first + res - 1) by (apply Z.mul_div_le; lia). nia.
 Qed.
 
 Theorem fill_row_spec res none row out :
@@ -612,7 +612,7 @@ Qed.
 
 (* month arithmetic for the placement of backfilled / filled cells *)
 Lemma back_before c k res :
-  aligned c -> 0 < res -> 0 < k -> 0 <= month_id (pe c) + (mlag c - k * res) ->
+  aligned c -> 0 < res -> 0 < k -> MINID <= month_id (pe c) + (mlag c - k * res) ->
   addm (pe c) (mlag c - k * res) < ev c /\
   lag_months (pe c) (addm (pe c) (mlag c - k * res)) = mlag c - k * res.
 Proof.
@@ -620,8 +620,8 @@ Proof.
   rewrite month_id_end in Hlo by assumption. rewrite lag_months_ends in * by assumption.
   rewrite addm_end by assumption. assert (a + (b - a - k * res) = b - k * res) as E by lia. rewrite E in *.
   split.
-  - apply month_end_mono; unfold MAXID in *; nia.
-  - rewrite lag_months_ends; unfold MAXID in *; try lia; nia.
+  - apply month_end_mono; nia.
+  - rewrite lag_months_ends by lia. lia.
 Qed.
 
 Lemma fill_lag_in_gap first last res k lag :
